@@ -21,8 +21,11 @@ DESC_TEXTS = [
     'NE/4 of Sec 14, S/2 of Sec 9 - 7, T154N-R97W, and trailing words here',
     'T154N R97 Sec 14: Lot 1, Lot 1',
     'That part of Sec 14 lying north, T154N-R97W',
+    'T154N-R97W Sec 14: Lots 4 - 2, S/2N/2, Lots 8 - 6, Sec 15: Lots 9 - 7, Lots 3 - 1',
 ]
-TRACT_TEXTS = ['Lot 1, Lot 1, NE/4, NE/4', 'Lots 5 - 3, Lot 2 (40.0), Lot 2 [39.9]', 'N2 NE, NE', 'N/2 of Lots 1 - 3, Lot 1', 'ALL']
+TRACT_TEXTS = ['Lot 1, Lot 1, NE/4, NE/4', 'Lots 5 - 3, Lot 2 (40.0), Lot 2 [39.9]', 'N2 NE, NE', 'N/2 of Lots 1 - 3, Lot 1', 'ALL',
+               # one parse raising the very same flag several times (two backward ranges; the same duplicate twice)
+               'Lots 4 - 2, S/2N/2, Lots 8 - 6', 'Lots 9 - 7, Lots 3 - 1, Lot 12 - 10', 'Lot 1, Lot 1, Lot 1, NE/4, NE/4, NE/4']
 
 DESC_KW = [{}, {'parse_qq': True}, {'clean_qq': True, 'parse_qq': True}, {'segment': True}, {'sec_colon_required': True},
            {'qq_depth': 1, 'parse_qq': True}, {'layout': 'copy_all'}, {'sec_within': True}, {'qq_depth_min': 3, 'parse_qq': True}]
